@@ -929,8 +929,8 @@ def iso_duration_spec(s: str) -> Any:
     """ISO 8601 / xsd:duration semantics for the regular grammar PnWnDTnHnMnS (integers):
     value in µs, 'months' when a month designator is present (must not be read as minutes), None when
     the string is not in this grammar (no verdict)."""
-    m = re.match(r"^P(?:(\d+)W)?(?:(\d+)(M))?(?:(\d+)D)?(?:T(?:(\d+)H)?(?:(\d+)M)?(?:(\d+)S)?)?$", s)
-    if not m or s in ("P",) or s.endswith("T") or not s.isascii():
+    m = re.fullmatch(r"P(?:(\d+)W)?(?:(\d+)(M))?(?:(\d+)D)?(?:T(?:(\d+)H)?(?:(\d+)M)?(?:(\d+)S)?)?", s)
+    if not m or s == "P" or s.endswith("T") or not s.isascii():
         return None
     w, mon, monflag, d, h, mi, sec = m.groups()
     if monflag:
